@@ -131,7 +131,7 @@ def s1(tier):
                 conss = [[]]
                 for fn in names:
                     f = fm[fn]
-                    for c in kinarow_menu(fn, f, ks=(1, 2) if tier == 'quick' else (1, 2, 3, 5)):
+                    for c in kinarow_menu(fn, f, ks=(1, 2, 3) if tier == 'quick' else (1, 2, 3, 5)):
                         conss.append([c])
                     for c in pin_menu(fn, f, idxs=(0, 1, -1, -2, 7, -8) if tier == 'thorough' else (0, -1, 1, 7)):
                         conss.append([c])
